@@ -18,9 +18,22 @@ def _cls(pl):
     return getattr(_mod(pl), pl)
 
 
+_SHARED = {"n": 0, "e": None}
+
+
 def _pos(pl, jde, **kw):
     from pymeeus.Epoch import Epoch
-    L, B, R = _cls(pl).geometric_heliocentric_position(Epoch(jde), **kw)
+    # every third position is asked with the process's ONE long-lived Epoch, set() to the instant wanted now after it has
+    # served other instants (and other planets): nothing an earlier call left in it may be read back
+    _SHARED["n"] += 1
+    if _SHARED["n"] % 3 == 0:
+        if _SHARED["e"] is None:
+            _SHARED["e"] = Epoch(2451545.0)
+        ep = _SHARED["e"]
+        ep.set(jde)
+    else:
+        ep = Epoch(jde)
+    L, B, R = _cls(pl).geometric_heliocentric_position(ep, **kw)
     return float(L), float(B), float(R)
 
 
